@@ -195,7 +195,7 @@ bool Hist::opRoundTrip(bool cont) {
 void Hist::loadDecoy() {
     size_t np = prev.h.nPts, ns = prev.h.sub ? prev.h.sub : 1, nc = ns ? prev.h.nAnalogs / ns : 0;
     { const SParam* q = prev.param("ANALOG", "USED"); if (q && !q->iv.empty() && q->iv[0] >= 0) nc = (size_t)q->iv[0]; }
-    if (np > 255 || nc > 255) return;
+    if (np > 255 || nc > 255 || ns > 5000) return;
     std::string dp = savePath("decoy");
     try {
         ezc3d::c3d d; { Param r("RATE"); r.set(std::vector<float>(1, 77.f)); d.parameter("POINT", r); } { Param a("RATE"); a.set(std::vector<float>(1, 77.f * (float)ns)); d.parameter("ANALOG", a); }
@@ -361,6 +361,7 @@ bool Hist::opFailedLoad() {
 
 // A second, unrelated object in the same process with the same number of declared points but other names: its README frame must be accepted.
 bool Hist::opSecondObject() {
+    if (prev.h.sub > 5000) return false;     // (histories with tens of thousands of sub-frames per frame build no frames, see opSetRate)
     std::vector<std::string> labels; { const SParam* q = prev.param("POINT", "LABELS"); if (q && q->type == ezc3d::CHAR) labels = q->sv; }
     size_t np = labels.empty() ? (size_t)rng.range(1, 4) : labels.size(); if (np > 12) np = 12;
     Outcome oc; bool valid = true;
@@ -404,6 +405,7 @@ bool Hist::opManyPoints() {
 // Frames appended up to and just past 32 767 (POINT:FRAMES is a 16-bit field): every call around the boundary is watched by C10 (a throw must
 // leave the object unchanged) and C05 (the three views agree while the calls are accepted).  Saving such an object is C17's business.
 bool Hist::opManyFrames(size_t targetArg) {
+    if (prev.h.sub > 5000) return false;
     if (wild || external || !prev.frames.empty() || managedEdited || offSpec) return false;
     std::vector<std::string> labels; { const SParam* q = prev.param("POINT", "LABELS"); if (q && q->type == ezc3d::CHAR) labels = q->sv; }
     bool withChannels = false; { const SParam* a = prev.param("ANALOG", "USED"); if (a && !a->iv.empty() && a->iv[0] != 0) { if (!targetArg || prev.h.sub == 0 || prev.h.sub > 3 || a->iv[0] > 3) return false; withChannels = true; } }
